@@ -130,6 +130,11 @@ impl<'a> Lexer<'a> {
             _ => unreachable!(),
         };
 
+        // identifiers may start with digits (e.g. `4foo`)
+        if base == 10 && c.is_ascii_digit() && self.s.at(is_identifier_start) {
+            return self.identifier(start);
+        }
+
         let number = self.s.get(start..self.s.cursor());
         if interpret_number(number).is_none() {
             match base {
